@@ -874,19 +874,25 @@ class Messenger(Connection):
 
             # Verify TLS name bindings
             cert_der = sock_tls.getpeercert(True)
-            cert = x509.load_der_x509_certificate(cert_der, default_backend())
+            if cert_der:
+                cert = x509.load_der_x509_certificate(cert_der, default_backend())
+            else:
+                # The peer did not present a certificate, so there are no identifiers
+                cert = None
             self._logger.debug('Peer certificate: %s', cert)
 
-            try:
-                ku_bits = cert.extensions.get_extension_for_oid(x509.oid.ExtensionOID.KEY_USAGE).value
-            except x509.ExtensionNotFound:
-                ku_bits = None
+            ku_bits = None
+            eku_set = None
+            if cert is not None:
+                try:
+                    ku_bits = cert.extensions.get_extension_for_oid(x509.oid.ExtensionOID.KEY_USAGE).value
+                except x509.ExtensionNotFound:
+                    pass
+                try:
+                    eku_set = cert.extensions.get_extension_for_oid(x509.oid.ExtensionOID.EXTENDED_KEY_USAGE).value
+                except x509.ExtensionNotFound:
+                    pass
             self._logger.debug('Peer KU: %s', ku_bits)
-
-            try:
-                eku_set = cert.extensions.get_extension_for_oid(x509.oid.ExtensionOID.EXTENDED_KEY_USAGE).value
-            except x509.ExtensionNotFound:
-                eku_set = None
             self._logger.debug('Peer EKU: %s', eku_set)
             # Example print(x509.ObjectIdentifier('1.3.6.1.5.5.7.3.1') in eku_set)
 
